@@ -1,7 +1,7 @@
 (* Tie between the facts regenerated from the source tree (gen/Gen_box.v, Gen_consts.v, Gen_colls.v, Gen_brine.v)
    and what model/Box.v and the C03 theorems use.  Every lemma is by computation: a change of a test, a label,
    an action or the order of the branches of _box / _unbox makes this file stop compiling. *)
-From V Require Import lib.Base model.Brine model.Refcount model.Box gen.Gen_box gen.Gen_consts gen.Gen_colls gen.Gen_brine.
+From V Require Import lib.Base model.Brine model.Box gen.Gen_box gen.Gen_consts gen.Gen_brine.
 From Coq Require Import String.
 Open Scope Z_scope.
 
@@ -22,22 +22,33 @@ Lemma tie_labels :
 Proof. repeat split. Qed.
 
 (* get_id_pack: instances are keyed by the address of the object, classes by their own address with 0 as the
-   instance part: two different live objects never share a key *)
+   instance part: two different live objects never share a key.  The NAME and the CLASS id in the pack are read
+   from the object's current class (obj.__class__.__module__/__name__, id(type(obj))): the pack of one and the same
+   object changes when its class is reassigned or renamed (props/C03.v, c03_one_proxy_refuted_when_id_pack_changes) *)
 Lemma tie_id_pack :
   Gen_box.id_pack_instance = ["name_pack"; "id(type(obj))"; "id(obj)"]%string /\
-  Gen_box.id_pack_class = ["name_pack"; "id(obj)"; "0"]%string.
-Proof. split; reflexivity. Qed.
+  Gen_box.id_pack_class = ["name_pack"; "id(obj)"; "0"]%string /\
+  Gen_box.id_pack_instance_name = "name_pack = '{0}.{1}'.format(obj.__class__.__module__, obj.__class__.__name__)"%string /\
+  Gen_box.id_pack_class_name = "name_pack = '{0}.{1}'.format(obj.__module__, obj.__name__)"%string.
+Proof. repeat split; reflexivity. Qed.
+(* netrefs are recognised by their TYPE (an object answering every attribute name is not taken for one); every name the
+   function reads is defined; module-like objects get instance-shaped packs from every path of their branch *)
+Lemma tie_id_pack_guards :
+  Gen_box.id_pack_netref_test_on_type = true /\ Gen_box.id_pack_undefined_names = [] /\
+  Gen_box.id_pack_module_test = "inspect.ismodule(obj) or getattr(obj, '__name__', None) == 'module'"%string /\
+  Gen_box.id_pack_module_returns = [["name_pack"; "id(type(obj))"; "id(obj)"]; ["name_pack"; "id(type(obj))"; "id(obj)"]]%string /\
+  Gen_box.id_pack_module_names =
+    ["'{0}.{1}'.format(obj_cls.__module__, obj_cls.__name__)"; "obj.__name__"; "'{0}.{1}'.format(obj.__class__.__module__, obj.__name__)";
+     "'{0}.{1}'.format(obj.__module__, obj.__name__)"; "'{0}'.format(obj.__name__)"]%string.
+Proof. repeat split; reflexivity. Qed.
 
 (* the by-value test looks at the exact type only (so instances of subclasses are not values) *)
 Lemma tie_exact_types : Gen_box.dumpable_tests_exact_types = true /\
   Gen_brine.simple_types = ["NoneType"; "int"; "bool"; "float"; "bytes"; "str"; "complex"; "NotImplementedType"; "ellipsis"]%string.
 Proof. split; reflexivity. Qed.
 
-(* the counting constants of the table and of the proxies (C10's subject) are the ones model/Box.v uses *)
-Lemma tie_counts :
-  Gen_colls.add_init = 0 /\ Gen_colls.add_inc = 1 /\ Gen_colls.dec_cmp = CLt /\
-  Gen_colls.proxy_init = 1 /\ Gen_colls.unbox_inc = 1 /\ Gen_colls.del_src = DRefcount.
-Proof. repeat split. Qed.
+(* the counting constants of the table and of the proxies (0 / +1 / '<' / 1 / +1 / whole count) are C10's tie
+   (proofs/RefcountTie.v over gen/Gen_colls.v); model/Box.v uses the same numbers and the harness compares every count *)
 
 (* obtain / deliver are pickle round trips whose bytes travel by value *)
 Lemma tie_copy :
